@@ -1079,7 +1079,7 @@ const NS: [usize; 6] = [1, 2, 3, 5, 8, 13];
 pub fn run(c: &mut Ctx) {
     c.note(
         "rule",
-        json!("prover: negative boundary values {MIN, MIN+1, -2^62, -128^k, -128^k+-1, -1, ...} and random negatives must be refused, non-negative boundary values {0,1,127,128,128^k+-1,2^62,2^63-2,2^63-1} and random ones accepted. honest: each accepted value linked to a slot of CommitmentProof<G1/G2> / SignatureProof / SignatureRequestProof (N and slot rotating; all N in thorough) and verified with the linked slot (must verify), every other slot, response+1, the plain value, zero, another merchant's parameters, another challenge (must not). forger: shadow-prover constraints with digit count L and radix U read from the observed layout: honest digits and all-max digits (controls), exact digits of out-of-range values if U^L > 2^63, values 2^63, 2^63+1, 2^64-1, U^L, q-1, q-2^63 with residue / all-max / top-digit-outside-alphabet / negative-digit / lowered-top-digit strategies, swapped digits, a published signature claimed for another digit at each position, digits of another value, compensated out-of-alphabet digit; the challenge is the library's over the assembled constraint. validate: one signature replaced by another digit's, a random pair, a re-randomised valid one at 16 (quick) / all 128 positions, plus key atoms. Distinct = distinct (part, link type or forger family, N, slot, value or position, check)."),
+        json!("prover: negative boundary values {MIN, MIN+1, -2^62, -128^k, -128^k+-1, -1, ...} and random negatives must be refused, non-negative boundary values {0,1,127,128,128^k+-1,2^62,2^63-2,2^63-1} and random ones accepted. honest: each accepted value linked to a slot of CommitmentProof<G1/G2> / SignatureProof / SignatureRequestProof (N and slot rotating; all N in thorough) and verified with the linked slot (must verify), every other slot, response+1, the plain value, zero, another merchant's parameters, another challenge (must not). forger: shadow-prover constraints with digit count L and radix U read from the observed layout: honest digits and all-max digits (controls), exact digits of out-of-range values if U^L > 2^63, values 2^63, 2^63+1, 2^64-1, U^L, q-1, q-2^63 with residue / all-max / top-digit-outside-alphabet / negative-digit / lowered-top-digit strategies, swapped digits, a published signature claimed for another digit at each position, digits of another value, compensated out-of-alphabet digit; the challenge is the library's over the assembled constraint. validate: one signature replaced by another digit's, a random pair, a re-randomised valid one at 16 (quick) / all 128 positions, plus key atoms. Distinct = distinct (part, link type or forger family, N, slot, value or position, check). Added later: coordinated pairs of invalid digit proofs, cooperating sigma2 substitutions in validate(), a digit signature extrapolated from two published ones, and an adaptive prover that re-fits one digit proof after the challenge. A top digit signed by curve points outside the group."),
     );
     let m = match fixtures::merchant(c.seed, "m0") {
         Ok(m) => m,
